@@ -49,7 +49,22 @@ func caseC17(c *Ctx) {
 		finish(c, a, false)
 		return
 	}
-	d := a.W.DumpEntities()
+	var d ecs.EntityDump
+	if c.Case%3 == 1 {
+		// a dump taken while a query is open (reading the handle state is not a structural change)
+		q := a.W.Query(ecs.All())
+		if mustPanic(func() { d = a.W.DumpEntities() }) {
+			a.fail("dump.locked", "DumpEntities panicked while a query was open")
+		}
+		q.Close()
+		if a.Failed() {
+			finish(c, a, false)
+			return
+		}
+		a.Cov.N["dumps_under_lock"]++
+	} else {
+		d = a.W.DumpEntities()
+	}
 	dcopy := ecs.EntityDump{Entities: append([]ecs.Entity{}, d.Entities...), Alive: append([]uint32{}, d.Alive...), Next: d.Next, Available: d.Available}
 	aliveAtDump := map[ecs.Entity]bool{}
 	for h := range a.M.Ledger {
